@@ -37,10 +37,14 @@ def upOf (j : Json) : Up :=
       | _ => [],
     timeout := intD j "timeout", flush := intD j "flush" }
 
-def replyOf {α : Type} (j : Json) (f : Json → α) : Reply α :=
+/-- `okStatus`: the status the real client takes for success on this endpoint; a scripted bare status equal to it is a
+success when the endpoint's answer has no body to decode (`/validate`), an undecodable body otherwise. -/
+def replyOf {α : Type} (j : Json) (f : Json → α) (okStatus : Nat := 0) (bodyless : Bool := false) : Reply α :=
   match strD j "kind" with
   | "ok" => .ok (f j)
-  | "status" => .status ((jnat j "status").toOption.getD 0)
+  | "status" =>
+    let n := (jnat j "status").toOption.getD 0
+    if n == okStatus && okStatus != 0 then (if bodyless then .ok (f j) else .malformed) else .status n
   | "transport" => .transport
   | _ => .malformed
 
@@ -161,9 +165,9 @@ def checkCase (j : Json) : Except String Verdict := do
         | _ => match sessOf (getJ presented "sess") with
           | some s => if boolD (getJ presented "sess") "zero" then .opens { s with lifetime := -1000000, refresh := -1000000, valid := -1000000 } else .opens s
           | none => .absent
-      let a : Ans := { refresh := replyOf (getJ inp "ansRefresh") (fun x => (strD x "token", intD x "ttl")),
-                       validate := replyOf (getJ inp "ansValidate") (fun _ => ()),
-                       profile := replyOf (getJ inp "ansProfile") (fun x => strs x "groups") }
+      let a : Ans := { refresh := replyOf (getJ inp "ansRefresh") (fun x => (strD x "token", intD x "ttl")) 201,
+                       validate := replyOf (getJ inp "ansValidate") (fun _ => ()) 200 true,
+                       profile := replyOf (getJ inp "ansProfile") (fun x => strs x "groups") 200 }
       let upStatus := let s := (jnat (getJ inp "upstreamResp") "status").toOption.getD 0; if s == 0 then 200 else s
       let httpsRedirect := secure && strD ora "urlScheme" != "https" && strD inp "proto" != "https"
       if httpsRedirect then
@@ -249,9 +253,9 @@ def checkCase (j : Json) : Except String Verdict := do
     | some u =>
       let slug := if u.slug != "" then u.slug else defaultSlug
       let P : Proxy.Policy := { slug := slug, rules := u.rules, allowedGroups := u.groups, L := ttlL, V := ttlV, G := ttlG, passAccessToken := false, skipPreflight := false }
-      let a : Ans := { refresh := replyOf (getJ inp "ansRefresh") (fun x => (strD x "token", intD x "ttl")),
-                       validate := replyOf (getJ inp "ansValidate") (fun _ => ()),
-                       profile := replyOf (getJ inp "ansProfile") (fun x => strs x "groups") }
+      let a : Ans := { refresh := replyOf (getJ inp "ansRefresh") (fun x => (strD x "token", intD x "ttl")) 201,
+                       validate := replyOf (getJ inp "ansValidate") (fun _ => ()) 200 true,
+                       profile := replyOf (getJ inp "ansProfile") (fun x => strs x "groups") 200 }
       let whitel := boolD ora "skipMatch"
       -- C13: the backend that received the request is the one the Host routes to (independent oracle), and it got the right Host
       if reached then
